@@ -21,6 +21,7 @@ import SpiceEv.Model.Strategies
 import SpiceEv.Model.Distributed
 import SpiceEv.Model.Battery
 import SpiceEv.Model.StratPeakShaving
+import SpiceEv.Model.StratPeakLoadWindow
 namespace SpiceEv.Distrib
 open SpiceEv
 
@@ -66,6 +67,18 @@ structure PSCfg where
   /-- bound on the iterations of each bisection of the peak-shaving model -/
   fuel : Nat
 
+/-- what a sub-strategy object of class `PeakLoadWindow` (spice_ev/strategies/peak_load_window.py) holds that never
+changes after its `__init__` (built from the parent's options: `time_windows` …) -/
+structure PLWCfg (α : Type) where
+  /-- `self.start_time`, `self.stop_time` (instants of the datetime model: µs since ordinal 0, UTC) -/
+  start : Int
+  stop : Int
+  bisectFuel : Nat
+  /-- `self.time_windows` -/
+  windows : List (String × List Season)
+  /-- `self.events`: the event table, one list per timestep -/
+  events : List (List (PeakLoadWindow.Ev α))
+
 /-- a sub-strategy object (`self.strat_opps` / `self.strat_deps`): its class and the options `step` reads -/
 structure SubStrat (α : Type) where
   rule : Rule
@@ -75,6 +88,8 @@ structure SubStrat (α : Type) where
   interval : Int
   /-- `some cfg`: the object is a `PeakShaving` (model: Model/StratPeakShaving.lean); `rule` is not read then -/
   ps : Option PSCfg := none
+  /-- `some cfg`: the object is a `PeakLoadWindow` (model: Model/StratPeakLoadWindow.lean) -/
+  plw : Option (PLWCfg α) := none
 
 /-- battery operations: those of the rule-based strategies plus the two `Distributed` needs for the virtual vehicle -/
 structure DOps (α B : Type) where
@@ -98,6 +113,15 @@ structure DEnv (α : Type) where
   /-- `self.world_state.future_events` of this step, every class (the filtered copies handed to the sub-strategy
   as `new_world_state.future_events` are read by a peak-shaving sub-strategy without perfect foresight) -/
   future : List (PeakShaving.Ev α) := []
+  /-- `self.current_time` as a datetime (a peak-load-window sub-strategy reads its local date and time of day) -/
+  nowDt : DateTime := default
+  /-- per connector `gc.grid_operator`, `gc.voltage_level`, `gc.window` (read by a peak-load-window sub-strategy) -/
+  plwGc : List (String × String × Option String × Option Bool) := []
+  /-- per vehicle the powers of `vehicle_type.charging_curve.points` and `vehicle.schedule` (dito) -/
+  plwVeh : List (String × List α × Option α) := []
+
+/-- the sub-strategy object is a `Greedy` / `Balanced` (neither of the other modelled classes) -/
+def SubStrat.isRule {α : Type} (s : SubStrat α) : Prop := s.ps = none ∧ s.plw = none
 
 def DEnv.sub {α : Type} (e : DEnv α) : Kind → SubStrat α
   | .deps => e.deps | .opps => e.opps
@@ -120,6 +144,10 @@ structure DInit (α : Type) where
   (built by its own `__init__` from its copy of the events, past events are popped by every `step_gc`); `[]` otherwise -/
   oppsEvents : List (PeakShaving.Ev α) := []
   depsEvents : List (PeakShaving.Ev α) := []
+  /-- `self.strat_opps.peak_power` / `self.strat_deps.peak_power` of a `PeakLoadWindow` sub-strategy (its `__init__`
+  derives it from the event table, every step inside a window raises it); `[]` otherwise -/
+  oppsPeaks : List (String × α) := []
+  depsPeaks : List (String × α) := []
 
 structure DState (α B : Type) where
   world : SWorld α B
@@ -507,13 +535,71 @@ def stepOppsPS (dops : DOps α B) (de : DEnv α) (cfg : PSCfg) (lk : Look α) (w
     .ok (w, ini, sdUpdate cmdsAcc post.cmds)
   | _ => .error .exception
 
+/-! #### a `PeakLoadWindow` object as sub-strategy -/
+
+/-- the instant of 1970-01-01T00:00Z in the datetime model (µs since ordinal 0): times of this model are µs since the
+epoch, the peak-load-window model compares vehicle departure times with `current_time.instant` -/
+def epochShift : Int := 62135683200000000
+
+/-- `PeakLoadWindow.step()` of the sub-strategy object on the virtual world ↦ (world', commands, its `peak_power`);
+`extra`: charging-curve powers of virtual vehicles (not in `de.plwVeh`) -/
+def plwStep (dops : DOps α B) (sub : SubStrat α) (cfg : PLWCfg α) (de : DEnv α) (peaks : List (String × α))
+    (extra : List (String × List α × Option α)) (vw : SWorld α B) :
+    Py (SWorld α B × List (String × α) × List (String × α)) := do
+  let env : PeakLoadWindow.PEnv α := ⟨sub.eps, sub.tsPerHour, de.nowDt, sub.interval, cfg.start, cfg.stop,
+    cfg.windows, cfg.events, dops.sum, cfg.bisectFuel⟩
+  let pgcs : List (PeakLoadWindow.PGc α) := vw.gcs.map (fun g =>
+    let a := (sdGet de.plwGc g.id).getD ("", none, none)
+    ⟨g, a.1, a.2.1, a.2.2, (sdGet peaks g.id).getD 0⟩)
+  let pvs : List (PeakLoadWindow.PVeh α B) := vw.vehicles.map (fun v =>
+    let a := (sdGet (extra ++ de.plwVeh) v.id).getD ([], none)
+    ⟨{ v with etd := v.etd.map (· + epochShift) }, a.1, a.2⟩)
+  let (pw', cmds) ← PeakLoadWindow.step dops.bat env ⟨pgcs, vw.stations, pvs, vw.batteries⟩
+  let vw' : SWorld α B := ⟨pw'.gcs.map (·.gc), pw'.stations,
+    pw'.vehicles.map (fun pv => { pv.v with etd := pv.v.etd.map (· - epochShift) }), pw'.batteries⟩
+  .ok (vw', cmds, pw'.gcs.foldl (fun acc g => sdSet acc g.gc.id g.peak) peaks)
+
+/-- depot connector, sub-strategy peak_load_window -/
+def stepDepsPLW (dops : DOps α B) (de : DEnv α) (cfg : PLWCfg α) (w : SWorld α B) (ini : DInit α)
+    (cmdsAcc : List (String × α)) (gc : GcS α) (stations : List (StationS α)) (cvs : List (VehicleS α B))
+    (batIds : List String) : Py (SWorld α B × DInit α × List (String × α)) := do
+  let (vw', cmds, peaks') ← plwStep dops de.deps cfg de ini.depsPeaks []
+    ⟨[gc], stations, cvs, depotBatteries w batIds⟩
+  .ok (mergeDeps w (syncStations vw') stations cvs, { ini with depsPeaks := peaks' }, sdUpdate cmdsAcc cmds)
+
+/-- opportunity station, sub-strategy peak_load_window (same frame as `stepOppsRule`) -/
+def stepOppsPLW (dops : DOps α B) (de : DEnv α) (cfg : PLWCfg α) (lk : Look α) (w : SWorld α B) (ini : DInit α)
+    (cmdsAcc : List (String × α)) (gcId : String) (gc : GcS α) (stations : List (StationS α))
+    (cvs : List (VehicleS α B)) (batIds : List String) :
+    Py (SWorld α B × DInit α × List (String × α)) := do
+  let saved := gc.curMax
+  let prep ← batIds.foldlM (oppsBattery dops de ini lk w (!cvs.isEmpty) gcId) ⟨gc, [], [], []⟩
+  let extra := prep.vveh.filterMap (fun v =>
+    (sdGet ini.virtualVt (virtName v.id)).map (fun vt => (v.id, vt.chargingCurve.points.map (·.2), (none : Option α))))
+  let (vw', cmds, peaks') ← plwStep dops de.opps cfg de ini.oppsPeaks extra
+    ⟨[prep.gc], stations ++ prep.vcs, cvs ++ prep.vveh, []⟩
+  match vw'.gcs with
+  | [gc1] => do
+    let w := writeBack w (syncStations vw') (stations.map (·.id)) (cvs.map (·.id))
+    let vids := prep.vcs.map (·.id)
+    let ini := { ini with virtualCs := ini.virtualCs.map (fun s =>
+      if vids.contains s.id then ((syncStations vw').stations.find? (·.id == s.id)).getD s else s), oppsPeaks := peaks' }
+    let vveh' := vw'.vehicles.filter (fun v => prep.vveh.any (fun x => x.id == v.id))
+    let post ← batIds.foldlM (oppsAfter dops saved prep.avail vveh') ⟨gc1, cmds, w.batteries⟩
+    let w := { (w.setGc post.gc) with batteries := post.bats }
+    .ok (w, ini, sdUpdate cmdsAcc post.cmds)
+  | _ => .error .exception
+
 /-- depot connector: `station_type, strat = self.strategies[gc_id]; … strat.step()` by the class of `strat` -/
 def stepDeps (dops : DOps α B) (de : DEnv α) (w : SWorld α B) (ini : DInit α) (cmdsAcc : List (String × α))
     (gc : GcS α) (stations : List (StationS α)) (cvs : List (VehicleS α B)) (batIds : List String) :
     Py (SWorld α B × DInit α × List (String × α)) :=
   match de.deps.ps with
-  | none => stepDepsRule dops de w ini cmdsAcc gc stations cvs batIds
   | some cfg => stepDepsPS dops de cfg w ini cmdsAcc gc stations cvs batIds
+  | none =>
+    match de.deps.plw with
+    | some cfg => stepDepsPLW dops de cfg w ini cmdsAcc gc stations cvs batIds
+    | none => stepDepsRule dops de w ini cmdsAcc gc stations cvs batIds
 
 /-- opportunity station, by the class of the sub-strategy -/
 def stepOpps (dops : DOps α B) (de : DEnv α) (lk : Look α) (w : SWorld α B) (ini : DInit α)
@@ -521,8 +607,11 @@ def stepOpps (dops : DOps α B) (de : DEnv α) (lk : Look α) (w : SWorld α B) 
     (cvs : List (VehicleS α B)) (batIds : List String) :
     Py (SWorld α B × DInit α × List (String × α)) :=
   match de.opps.ps with
-  | none => stepOppsRule dops de lk w ini cmdsAcc gcId gc stations cvs batIds
   | some cfg => stepOppsPS dops de cfg lk w ini cmdsAcc gcId gc stations cvs batIds
+  | none =>
+    match de.opps.plw with
+    | some cfg => stepOppsPLW dops de cfg lk w ini cmdsAcc gcId gc stations cvs batIds
+    | none => stepOppsRule dops de lk w ini cmdsAcc gcId gc stations cvs batIds
 
 /-- body of `for gc_id, gc in self.world_state.grid_connectors.items()` (the charging loop) -/
 def stepGc (dops : DOps α B) (de : DEnv α) (numberCs : List (String × Option Int))
